@@ -300,6 +300,15 @@ def audit(prop, log):
             discharged += 1
     if p.returncode != 0 and not problems:
         problems.append("audit file failed to elaborate: " + out[-500:])
+    # thorough tier: independent re-check of the compiled theorem modules with leanchecker
+    if log.get("tier") == "thorough" and not problems:
+        t = time.time()
+        lc = subprocess.run(["lake", "env", "leanchecker"] + list(prop.THEOREM_MODS), cwd=LEAN,
+                            stdout=subprocess.PIPE, stderr=subprocess.STDOUT, text=True)
+        log["leanchecker_s"] = round(time.time() - t, 1)
+        log["leanchecker_rc"] = lc.returncode
+        if lc.returncode != 0:
+            problems.append("leanchecker rejected the theorem modules: " + lc.stdout[-300:])
     log["audit"] = {"theorems": len(theorems), "discharged": discharged, "axioms": sorted(used)}
     return [t for _, t in theorems], discharged, sorted(used), problems
 
@@ -501,6 +510,7 @@ def _run_check(prop, tier, seed, replay=None):
     pid = prop.ID
     ctx = Ctx(pid, tier, seed)
     log = ctx.log
+    log["tier"] = tier
     evidence_path = os.path.join(OUT, "evidence", pid + ".json")
     obligations_broken = []
 
@@ -659,6 +669,7 @@ def _run_check(prop, tier, seed, replay=None):
         "discharged": discharged + (len(getattr(prop, "EXTRA_OBLIGATIONS", [])) if not static_problems else 0),
         "checker_cmd": f"cd lean && lake build {' '.join(targets)} && lake env lean RsassModel/Audit/{pid}.lean",
         "trusted_base": ["Lean 4.33.0 kernel", "axioms used by the property theorems: " + (", ".join(axioms) or "none"),
+                         "leanchecker re-check of the theorem modules (thorough tier)" if tier == "thorough" else "leanchecker not run in the quick tier",
                          "Rust harness /verif/harness (calls rsass in-process)", "tools/vlib.py differ",
                          "Lean driver protocol parsing (RsassModel/Basic/Proto.lean)"] + list(getattr(prop, "TRUSTED", [])),
         "theorems": theorems,
